@@ -1,20 +1,104 @@
 HOOK_COMMITS = []
-NOTES = ("All properties are decided by the TLA+ specification in spec/: TLC model-checks the design-level "
-         "modules and validates traces of the real library (recorded by harness/) against the abstract machine. "
-         "See DESIGN.md.")
+NOTES = ("All 20 properties are decided with the TLA+ specification in spec/: TLC model-checks the design-level and "
+         "implementation-shaped modules (MC_*), generates histories to every hidden state (Gen_*), and validates "
+         "traces of the real library recorded by harness/ against the abstract machines (Trace_*). No source hook "
+         "was needed: everything is observed through the public API (the guard is passed to the build but no code "
+         "in /repo is conditional on it). Eleven genuine defects found on the pinned tree were repaired with fix: "
+         "commits in /repo (known_findings.json). See DESIGN.md.")
 
-TV_NOTE = ("Trusted: TLC, the TLA+ specification as the statement of intent (spec/BitSeqs, Codes, BitStream), "
-           "the harness's event logging (it reports arguments and results, it computes no expectation), JSON I/O. "
-           "Bounded: histories and grids are finite samples of the quantifier (see evidence coverage).")
+TV_NOTE = ("Trusted: TLC and the TLA+ specification as the statement of intent (spec/BitSeqs, Codes, BitStream and the "
+           "module named in the text); the harness only drives the library and logs arguments and results (it computes "
+           "no expectation), JSON I/O. Bounded: histories, grids and schedules are finite samples of the quantifier, "
+           "listed in the evidence coverage; cached model-checking instances are reported separately from live ones.")
+
+T_TV = "TLA+ spec + TLC model checking + TLC trace validation of recorded executions"
+T_GEN = "TLA+ impl-shaped model checked by TLC; TLC-generated state histories replayed on the code; TLC trace validation"
+
+
+def m(text, ref, technique=T_TV, note=TV_NOTE):
+    return dict(text=text, design_ref=ref, note=note, technique=technique)
+
 
 META = {
-    "C01": dict(
-        text="Every public call of recorded executions of the real writers (all word sizes, backends, both "
-             "endiannesses) is validated by TLC as a step of the abstract BitStream machine: delivered bytes must "
-             "equal the layout contract applied to the bits written, delivery is append-only, flush/close pad "
-             "with zeros, report pending bits and are idempotent.",
-        design_ref="DESIGN.md §7 C01",
-        note=TV_NOTE,
-        technique="TLA+ spec + TLC trace validation of recorded executions",
-    ),
+    "C01": m("TLC proves, at all five real word sizes and both endiannesses, that every code path of the "
+             "implementation-shaped writer model refines the abstract append-only writer from every space_left state; "
+             "TLC-generated histories bring real writers of every configuration (word size x backend kind) into every "
+             "space_left state where every operation of the alphabet is executed; every call (with the bytes the "
+             "backend received) is validated by TLC against BitStream: layout contract, dirty high bits ignored, "
+             "append-only delivery, flush/close padding, counts and idempotence, final storage = delivered bytes.",
+             "DESIGN.md §7 C01", T_GEN),
+    "C02": m("TLC proves on the implementation-shaped reader model (u8..u64 words, zero-extended and strict backends) that "
+             "every operation from every (cursor, fill level) state returns what the abstract reader returns and keeps "
+             "the buffer clean; TLC-generated histories reach every fill level on real readers of all 56 configurations "
+             "(buffered u8..u64 over six backends, unbuffered over four) where reads, repeated peeks, skip-after-peek, "
+             "skips, unary reads and clones are executed with a refill-forcing continuation; TLC validates every event "
+             "against the byte image.", "DESIGN.md §7 C02", T_GEN),
+    "C03": m("Every read event of concatenated code streams and offset sweeps (all families, parameters up to 63 / "
+             "2^64-1, values at every power of two +-1 and domain maxima, every table option, random writer and reader "
+             "configurations) is validated by TLC against the independently written prefix decoder Codes!Dec on the "
+             "recorded byte image, including the position after the codeword; TLC also checks the round-trip and "
+             "prefix-freeness theorems of the codebook.", "DESIGN.md §7 C03"),
+    "C04": m("Every code x parameter x value of the grids is written alone at a word boundary; TLC compares the bytes "
+             "the backend received with the codeword computed by Codes!Enc, the executable transcription of the "
+             "documented definitions (including the LE conventions), through the layout contract.", "DESIGN.md §7 C04"),
+    "C05": m("Every look-ahead pattern of the three decoding tables (a rotating 1/16 in quick, all in thorough) at "
+             "many alignments, with and without an extra refill, is decoded with every table option on clones and "
+             "validated by TLC against Codes!Dec; every encoding/length table entry is validated against Enc/CLen; "
+             "the reader model's peek / skip-after-peek discipline is model-checked.", "DESIGN.md §7 C05", T_GEN),
+    "C06": m("len events of every length function variant and dispatch path, the count returned by every write and the "
+             "advance of every read are compared by TLC with the closed form Codes!CLen, itself proved equal to "
+             "Len(Enc) on the grids by TLC.", "DESIGN.md §7 C06"),
+    "C07": m("The position reported after every call of every schedule is compared with the abstract position; from "
+             "every fill state a seek to every target followed by a continuation is validated by TLC (SeekEquivalence), "
+             "on all seekable configurations including Cursor/BufReader through the byte adapter; the reader model's "
+             "set_bit_pos is model-checked for every target.", "DESIGN.md §7 C07", T_GEN),
+    "C08": m("From every source fill state (including more than a word buffered) and random destination fill levels, "
+             "copy_to and copy_from of n around every boundary followed by continuations on both streams are validated "
+             "by TLC (CopyStep), in the default and in the no_copy_impls build; the optimised copy paths of the reader "
+             "and writer models are model-checked against the abstract copy.", "DESIGN.md §7 C08", T_GEN),
+    "C09": m("Valid streams truncated after every backend word are read by every strict configuration (TLC demands Ok "
+             "with the right value for items inside the data and Err for the first item needing a missing bit) and by "
+             "zero-extended readers (never Err, zeros); the strict reader model is model-checked for the same rule.",
+             "DESIGN.md §7 C09", T_GEN),
+    "C10": m("The whole identifier space (51 constants by name, every enumeration variant with parameters 0..12 and "
+             "larger ones) through every dispatcher kind x {write, read, len} x both endiannesses: the trace names the "
+             "identifier, TLC resolves the name and compares bytes, values, positions and lengths with the named code.",
+             "DESIGN.md §7 C10"),
+    "C11": m("TLC explores every fault schedule of the byte stream on the adapter model (LossFree, ReadExact); the real "
+             "adapter runs over fault-injecting Read/Write for every schedule up to a depth (u8..u32), every single "
+             "fault (u64, u128) and random schedules, and every call into the byte stream and adapter return is "
+             "validated by TLC against the model; bit streams through the adapter are validated like memory backends.",
+             "DESIGN.md §7 C11", "TLA+ fault model checked by TLC (all schedules) + TLC trace validation of fault-injected runs"),
+    "C12": m("std::io::Write::write of 0..40 bytes from every space_left state of every writer configuration and "
+             "std::io::Read::read of 0..40 bytes from every fill state of every reader are validated by TLC "
+             "(WriteBytesStep / ReadBytesStep: bytes in stream order, whole slice reported); the writer model's "
+             "io::Write path is model-checked at all word sizes.", "DESIGN.md §7 C12", T_GEN),
+    "C13": m("TLC explores the complete state graph of the four word streams over small arrays (cursor invariants, "
+             "determinism) and emits one history per state; every state x every call, every call sequence of bounded "
+             "length and long random sequences are executed on the real types (u8..u128, owned/borrowed) and validated "
+             "by TLC against WordBackend.", "DESIGN.md §7 C13"),
+    "C14": m("Random histories through CountBitWriter/Reader, DbgBitWriter/Reader and their composition; values, bytes, "
+             "positions and the public counter after every call (including skip-after-peek based codes, flushes and "
+             "copies) are validated by TLC against the abstract machine's count.", "DESIGN.md §7 C14"),
+    "C15": m("TLC explores every interleaving of threads updating through the lock; snapshots of all 55 tracked totals, "
+             "merges in every style and order, wrapper-observed writes/reads, 2/4/8 real threads and best_code answers "
+             "are validated by TLC, which recomputes the totals with Codes!CLen in exact arithmetic.", "DESIGN.md §7 C15"),
+    "C16": m("Display->FromStr for every variant x parameter, token-level malformed strings, identifier round trips by "
+             "name, out-of-range identifiers and equality => identical codewords are validated by TLC against "
+             "Dispatch (grammar on tokens, ConstCodeOf, SameCodewords).", "DESIGN.md §7 C16"),
+    "C17": m("TLC checks bijection/inverse/formula over the whole 8-, 12-, 16-bit types and the agreement of the "
+             "two's-complement vector forms; real to_nat/to_int on all 8/16-bit values and on neighbourhoods of 0, MIN, "
+             "MAX and every power of two for wider types are validated by TLC with the vector forms. The exhaustive "
+             "2^32 sweep is out of reach (stated in DESIGN.md).", "DESIGN.md §7 C17"),
+    "C18": m("Byte-level VByte writes/reads (all entry points) on dense, boundary and random values and every "
+             "terminated byte string of bounded length are validated by TLC against Codes (bytes, values, lengths, "
+             "completeness); the bit-stream VByte codes are validated against the same definitions.", "DESIGN.md §7 C18"),
+    "C19": m("The same drivers in the build variants {release, dev} x {default, checks, no_copy_impls, both}; every trace "
+             "must be a behaviour of the same specification, in which only write_bits may panic and exactly when the "
+             "build checks and the argument is dirty (the dirty driver issues every n x every single dirty bit).",
+             "DESIGN.md §7 C19"),
+    "C20": m("TLC checks safety and termination of the iterator model for every monotone step function at small widths; "
+             "real length functions scanned below 2^upto are monotone with change points validated against CLen; the real "
+             "iterator on every library length function and on synthetic step functions (watchdog on evaluations) is "
+             "validated yield by yield, and Kraft's inequality is evaluated by TLC in exact arithmetic.", "DESIGN.md §7 C20"),
 }
